@@ -1,11 +1,184 @@
-(* C01/Props.v -- the property theorems, and nothing else. *)
+(* C01/Props.v -- the property theorems, and nothing else.  Each is closed by [exact] of a lemma of
+   Proofs*.v and followed by Print Assumptions; non-vacuity Examples at the end.
+
+   Vocabulary (Model.v / Spec.v): a recording is [parts : list (list (list A))] -- a list of files,
+   each a list of rows, each row a list of samples of ANY type A; [concat parts] is the single array
+   obtained by concatenating the files in order; [getitem parts it cols] is the model of
+   BaseEphysReader.__getitem__ (bounds = [0] + cumsum(sizes), _get_subitems, one NumPy read per
+   part, np.vstack, then the column selector); [getitem_rows parts it] is the same without columns.
+   [valid_item n it] is the regime of the statement: integers in [-n, n); unit-step slices with
+   bounds in {None} u [-n, n] that select >= 1 row; non-empty strictly increasing lists in [0, n).
+   Parts may be empty (length 0): no theorem needs "every file has >= 1 sample". *)
 From Coq Require Import ZArith List Lia Bool.
-From PV Require Import Base.PySlice Base.NpSearch C01.Model C01.Spec C01.Proofs.
+From PV Require Import Base.PySlice Base.NpSearch C01.Model C01.Spec C01.Proofs1 C01.Proofs2
+  C01.Proofs3 C01.Proofs4 C01.Proofs.
+From PV Require C16.Model.
 Import ListNotations.
 Open Scope Z_scope.
 
+(* reader[start:stop] = rows s .. e-1 of the concatenation, s and e being NumPy's clipped bounds *)
+Theorem C01_slice : forall (A : Type) (parts : list (list (list A))) (start stop step : option Z),
+  let n := zlen (concat parts) in
+  0 < n -> valid_item n (ISlice start stop step) ->
+  getitem_rows parts (ISlice start stop step) =
+  Some (slice (concat parts) (np_bound n 0 start) (np_bound n n stop)).
+Proof. exact (@getitem_slice_correct). Qed.
+Print Assumptions C01_slice.
+
+(* reader[i] = the i-th row (negative i counted from the end), returned as a 1 x c block *)
+Theorem C01_int : forall (A : Type) (parts : list (list (list A))) (i : Z),
+  let n := zlen (concat parts) in
+  - n <= i < n ->
+  exists r, Row_at (concat parts) i r /\ getitem_rows parts (IInt i) = Some [r].
+Proof. exact (@getitem_int_decl). Qed.
+Print Assumptions C01_int.
+
+(* reader[l] for a non-empty strictly increasing list/array l: the k-th returned row is row l[k] *)
+Theorem C01_list : forall (A : Type) (parts : list (list (list A))) (l : list Z),
+  valid_item (zlen (concat parts)) (IList l) ->
+  exists rows, getitem_rows parts (IList l) = Some rows /\ Rows_at (concat parts) l rows.
+Proof. exact (@getitem_list_decl). Qed.
+Print Assumptions C01_list.
+
+(* the three together, against the one-array NumPy primitive used as reference by the
+   correspondence: np.atleast_2d(concatenation[item]) *)
+Theorem C01_rows_numpy : forall (A : Type) (parts : list (list (list A))) (it : item),
+  valid_item (zlen (concat parts)) it ->
+  getitem_rows parts it = np_index (concat parts) it.
+Proof. exact (@getitem_rows_np). Qed.
+Print Assumptions C01_rows_numpy.
+
+(* reader[item, cols] = (concatenation[item])[:, cols] for EVERY column selector (where NumPy
+   raises on the columns so does the reader); reader[item] likewise; exactly reader[:, cols] is a
+   derived reader (C02's business) *)
+Theorem C01_cols : forall (A : Type) (parts : list (list (list A))) (it : item) (cols : option colsel),
+  valid_item (zlen (concat parts)) it ->
+  getitem parts it cols =
+  match cols with
+  | Some cs => if is_whole it then Some (RDerived cs)
+               else option_map RRows (np_getitem (concat parts) it cols)
+  | None => option_map RRows (np_getitem (concat parts) it cols)
+  end.
+Proof. exact (@getitem_np). Qed.
+Print Assumptions C01_cols.
+
+(* what arr[:, cols] is, declaratively: each row indexed by the same column positions *)
+Theorem C01_cols_decl : forall (A : Type) (cs : colsel) (rows out : list (list A)),
+  select_cols cs rows = Some out <-> Cols_of cs rows out.
+Proof. exact (@select_cols_decl). Qed.
+Print Assumptions C01_cols_decl.
+
+(* the column selectors named in the statement, on one row: slice, reversed slice, index list *)
+Theorem C01_cols_selectors : forall (A : Type) (r : list A),
+  (forall start stop step, unit_step step ->
+     sel_row (CSlice start stop step) r =
+     Some (slice r (np_bound (zlen r) 0 start) (np_bound (zlen r) (zlen r) stop))) /\
+  sel_row (CSlice None None (Some (-1))) r = Some (rev r) /\
+  (forall l, Forall (fun x => 0 <= x < zlen r) l ->
+     exists out, sel_row (CList l) r = Some out /\ Rows_at r l out).
+Proof.
+  intros A r. split; [exact (sel_row_slice r)|]. split; [exact (sel_row_rev r)|].
+  intros l H. rewrite sel_row_list by exact H. destruct (gather_some r l H) as (out & E & _).
+  exists out. split; [exact E|]. now apply gather_Rows_at.
+Qed.
+Print Assumptions C01_cols_selectors.
+
+(* column selection commutes with stacking row blocks (so selecting columns after np.vstack, as
+   __getitem__ does, equals selecting them in every part) *)
+Theorem C01_cols_vstack : forall (A : Type) (cs : colsel) (blocks : list (list (list A))),
+  select_cols cs (concat blocks) = option_map (@concat (list A)) (mapM (select_cols cs) blocks).
+Proof. exact (@select_cols_concat). Qed.
+Print Assumptions C01_cols_vstack.
+
+(* part_bounds = [0, ..., sum sizes]: one more entry than files, strictly increasing for files of
+   >= 1 sample; for a recording, the last bound is the length of the concatenation *)
+Theorem C01_bounds : forall sizes : list Z,
+  py_first (part_bounds sizes) = Some 0 /\ last (part_bounds sizes) 0 = zsum sizes /\
+  zlen (part_bounds sizes) = zlen sizes + 1 /\
+  ((forall x, In x sizes -> 1 <= x) -> increasing (-1) (part_bounds sizes)).
+Proof. exact part_bounds_spec. Qed.
+Print Assumptions C01_bounds.
+
+Theorem C01_bounds_concat : forall (A : Type) (parts : list (list (list A))),
+  last (part_bounds (map zlen parts)) 0 = zlen (concat parts).
+Proof. intros A parts. exact (bounds_last parts). Qed.
+Print Assumptions C01_bounds_concat.
+
+(* n_samples = chunk_bounds[-1] (C16's _get_chunk_bounds) = sum of the part sizes, hence
+   shape = (sum sizes, n_channels) *)
+Theorem C01_n_samples : forall (sizes : list Z) (cs : Z),
+  sizes <> [] -> (forall x, In x sizes -> 0 <= x) -> 1 <= cs ->
+  exists b, C16.Model.get_chunk_bounds sizes cs = Some b /\ b <> [] /\ last b 0 = zsum sizes.
+Proof. exact n_samples_spec. Qed.
+Print Assumptions C01_n_samples.
+
+(* _memmap_flat: the row count of a flat file with any header offset and item size *)
 Theorem C01_memmap_rows : forall fsize offset isz nch n : Z,
   0 <= n -> 0 < nch -> 0 < isz -> fsize = offset + n * nch * isz ->
   memmap_rows fsize offset isz nch = Some n.
 Proof. exact memmap_rows_exact. Qed.
 Print Assumptions C01_memmap_rows.
+
+(* ... also with trailing bytes short of one row; and file by file for a multi-file reader *)
+Theorem C01_memmap_rows_trailing : forall fsize offset isz nch n junk : Z,
+  0 <= n -> 0 < nch -> 0 < isz -> 0 <= junk < nch * isz -> fsize = offset + n * nch * isz + junk ->
+  memmap_rows fsize offset isz nch = Some n.
+Proof. exact memmap_rows_floor. Qed.
+Print Assumptions C01_memmap_rows_trailing.
+
+Theorem C01_flat_sizes : forall (offset isz nch : Z) (fsizes ns : list Z), 0 < nch -> 0 < isz ->
+  Forall2 (fun f n => 0 <= n /\ exists junk, 0 <= junk < nch * isz /\ f = offset + n * nch * isz + junk) fsizes ns ->
+  mapM (fun f => memmap_rows f offset isz nch) fsizes = Some ns.
+Proof. exact flat_sizes. Qed.
+Print Assumptions C01_flat_sizes.
+
+(* the boolean checker run on the implementation's output implies the statement on that input *)
+Theorem C01_checker_sound : forall sizes c it cols obs,
+  getitem_spec_b sizes c it cols obs = true ->
+  np_getitem (concat (mk_parts c 0 sizes)) it cols = Some obs.
+Proof. exact getitem_spec_b_sound. Qed.
+Print Assumptions C01_checker_sound.
+
+Theorem C01_valid_item_b : forall n it, valid_item_b n it = true <-> valid_item n it.
+Proof. exact valid_item_b_spec. Qed.
+Print Assumptions C01_valid_item_b.
+
+(* ---- non-vacuity: three files of 1, 3 and 2 samples, 2 channels; entry (r, j) = 2r + j ---- *)
+Definition ex_parts : list (list (list Z)) := mk_parts 2 0 [1; 3; 2].
+
+Example C01_ex_parts : ex_parts = [[[0; 1]]; [[2; 3]; [4; 5]; [6; 7]]; [[8; 9]; [10; 11]]].
+Proof. vm_compute. reflexivity. Qed.
+(* a slice across both file boundaries, negative stop *)
+Example C01_ex_slice_valid : valid_item 6 (ISlice (Some 0) (Some (-1)) None) /\ 0 < zlen (concat ex_parts).
+Proof. rewrite <- valid_item_b_spec. vm_compute. split; reflexivity. Qed.
+Example C01_ex_slice : getitem_rows ex_parts (ISlice (Some 0) (Some (-1)) None) =
+  Some [[0; 1]; [2; 3]; [4; 5]; [6; 7]; [8; 9]].
+Proof. vm_compute. reflexivity. Qed.
+Example C01_ex_subitems : get_subitems (part_bounds [1; 3; 2]) (ISlice (Some 1) (Some 5) None) =
+  Some [mksub 1 (ISlice (Some 0) (Some 3) (Some 1)); mksub 2 (ISlice (Some 0) (Some 1) (Some 1))].
+Proof. vm_compute. reflexivity. Qed.
+Example C01_ex_int : getitem_rows ex_parts (IInt (-2)) = Some [[8; 9]] /\ - 6 <= -2 < 6.
+Proof. split; [vm_compute; reflexivity|lia]. Qed.
+Example C01_ex_list_valid : valid_item (zlen (concat ex_parts)) (IList [0; 3; 5]).
+Proof. rewrite <- valid_item_b_spec. vm_compute. reflexivity. Qed.
+Example C01_ex_list : getitem_rows ex_parts (IList [0; 3; 5]) = Some [[0; 1]; [6; 7]; [10; 11]].
+Proof. vm_compute. reflexivity. Qed.
+(* the formerly failing input of DESIGN §9: array row index + column selector *)
+Example C01_ex_cols : getitem ex_parts (IList [0; 3; 5]) (Some (CList [1; 0])) =
+  Some (RRows [[1; 0]; [7; 6]; [11; 10]]).
+Proof. vm_compute. reflexivity. Qed.
+Example C01_ex_cols_rev : getitem ex_parts (ISlice (Some 3) None (Some 1)) (Some (CSlice None None (Some (-1)))) =
+  Some (RRows [[7; 6]; [9; 8]; [11; 10]]).
+Proof. vm_compute. reflexivity. Qed.
+Example C01_ex_derived : getitem ex_parts (ISlice None None None) (Some (CList [1])) = Some (RDerived (CList [1])).
+Proof. vm_compute. reflexivity. Qed.
+(* outside the regime the model fails like the code: stop = 0 is read as "to the end" by phylib but as
+   "empty" by NumPy, an unordered list trips the per-part reads *)
+Example C01_ex_stop0 : getitem_rows ex_parts (ISlice (Some 1) (Some 0) None) = Some (skipn 1 (concat ex_parts)) /\
+  np_index (concat ex_parts) (ISlice (Some 1) (Some 0) None) = Some [].
+Proof. vm_compute. split; reflexivity. Qed.
+Example C01_ex_bounds : part_bounds [1; 3; 2] = [0; 1; 4; 6] /\
+  C16.Model.get_chunk_bounds [1; 3; 2] 4 = Some [0; 1; 4; 6].
+Proof. vm_compute. split; reflexivity. Qed.
+Example C01_ex_memmap : memmap_rows (7 + 5 * 3 * 4 + 11) 7 4 3 = Some 5.
+Proof. vm_compute. reflexivity. Qed.
